@@ -5035,3 +5035,32 @@ M('C05', 'load-composition-normalises-version', PGP, "        if isinstance(othe
   "        if isinstance(other, Signature):\n            if self._signature is None:\n                self._signature = other\n                other.header.version = 4\n                return self\n", 'C05.1')
 M('C05', 'load-setattr-pubalg', PGP, _LOADP, "            else:\n                self._signature = pkt\n                if pkt.pubalg in (PubKeyAlgorithm.RSAEncrypt, PubKeyAlgorithm.RSASign):\n                    setattr(pkt, 'pubalg', PubKeyAlgorithm.RSAEncryptOrSign)\n        else:\n            raise ValueError('Expected: Signature. Got: {:s}'.format(pkt.__class__.__name__))", 'C05.1')
 T('C05', 'twin-load-reads-header-fields-only', PGP, _LOADP, "            else:\n                sigtype, halg = pkt.sigtype, pkt.halg\n                self._signature = pkt\n        else:\n            raise ValueError('Expected: Signature. Got: {:s}'.format(pkt.__class__.__name__))")
+
+# ---- wave 5: generator helpers, table-driven codecs, streaming compressors, text codec, widths
+T('C14', 'twin-stream-generator-helper', PGP, "        def _getpkt(d):\n            return Packet(d) if d else None\n        # some packets are filtered out\n" + TRUST, "        getpkt = self._iter_packets(data, skip=(PacketTag.Trust,))\n",
+  more=[(PGP, "    def parse(self, data):\n        unarmored = self.ascii_unarmor(data)\n        data = unarmored['body']\n\n        if unarmored['magic'] is not None and 'KEY' not in unarmored['magic']:",
+         "    @staticmethod\n    def _iter_packets(data, skip=(PacketTag.Trust,)):\n        while data:\n            pkt = Packet(data)\n            if pkt.header.tag not in skip:\n                yield pkt\n\n"
+         "    def parse(self, data):\n        unarmored = self.ascii_unarmor(data)\n        data = unarmored['body']\n\n        if unarmored['magic'] is not None and 'KEY' not in unarmored['magic']:")])
+M('C14', 'stream-generator-skips-nothing', PGP, "        def _getpkt(d):\n            return Packet(d) if d else None\n        # some packets are filtered out\n" + TRUST, "        getpkt = self._iter_packets(data, skip=())\n", 'C14.3',
+  more=[(PGP, "    def parse(self, data):\n        unarmored = self.ascii_unarmor(data)\n        data = unarmored['body']\n\n        if unarmored['magic'] is not None and 'KEY' not in unarmored['magic']:",
+         "    @staticmethod\n    def _iter_packets(data, skip=(PacketTag.Trust,)):\n        while data:\n            pkt = Packet(data)\n            if pkt.header.tag not in skip:\n                yield pkt\n\n"
+         "    def parse(self, data):\n        unarmored = self.ascii_unarmor(data)\n        data = unarmored['body']\n\n        if unarmored['magic'] is not None and 'KEY' not in unarmored['magic']:")])
+M('C14', 'stream-generator-also-skips-attributes', PGP, "        def _getpkt(d):\n            return Packet(d) if d else None\n        # some packets are filtered out\n" + TRUST, "        getpkt = self._iter_packets(data, skip=(PacketTag.Trust, PacketTag.UserAttribute))\n", 'C14.3',
+  more=[(PGP, "    def parse(self, data):\n        unarmored = self.ascii_unarmor(data)\n        data = unarmored['body']\n\n        if unarmored['magic'] is not None and 'KEY' not in unarmored['magic']:",
+         "    @staticmethod\n    def _iter_packets(data, skip=(PacketTag.Trust,)):\n        while data:\n            pkt = Packet(data)\n            if pkt.header.tag not in skip:\n                yield pkt\n\n"
+         "    def parse(self, data):\n        unarmored = self.ascii_unarmor(data)\n        data = unarmored['body']\n\n        if unarmored['magic'] is not None and 'KEY' not in unarmored['magic']:")])
+GENEXPORT = ("        for component in self._export_sequence():\n            _bytes = component.__bytearray__() if False else _bytes\n")
+EXPORT_GEN_NEW = ("        _bytes = bytearray()\n        for component in self._export_sequence():\n            _bytes += component.__bytearray__()\n\n        return _bytes\n\n"
+                  "    def _export_sequence(self):\n        yield self._key\n        for sig in self._signatures:\n            if not sig.embedded and sig.exportable:\n                yield sig\n"
+                  "        for uid in self._uids:\n            yield uid._uid\n            yield from [s for s in uid._signatures if s.exportable]\n        for subkey in self._children.values():\n            yield subkey\n")
+T('C14', 'twin-export-generator-sequence', PGP, EXPORT, EXPORT_GEN_NEW)
+M('C14', 'export-generator-uid-sigs-unfiltered', PGP, EXPORT, EXPORT_GEN_NEW.replace("yield from [s for s in uid._signatures if s.exportable]", "yield from uid._signatures"), 'C14.1')
+M('C14', 'export-generator-subkeys-first', PGP, EXPORT, EXPORT_GEN_NEW.replace("        for subkey in self._children.values():\n            yield subkey\n", "").replace("        yield self._key\n", "        yield self._key\n        for subkey in self._children.values():\n            yield subkey\n"), 'C14.1')
+M('C14', 'ecpoint-width-rounded-down', FL, "(bitlen + 7) // 8", "bitlen // 8", 'C14.7')
+M('C20', 'literal-text-utf8-sig', PK, "        if self.format == 'u':\n            return self._contents.decode('utf-8')", "        if self.format == 'u':\n            return self._contents.decode('utf-8-sig')", 'C20.6')
+M('C20', 'literal-text-t-as-utf8', PK, "        if self.format == 't':\n            return self._contents.decode('latin-1')", "        if self.format == 't':\n            return self._contents.decode('utf-8', 'replace')", 'C20.6')
+T('C20', 'twin-literal-text-default-codec', PK, "        if self.format == 'u':\n            return self._contents.decode('utf-8')", "        if self.format == 'u':\n            return self._contents.decode()")
+M('C20', 'encrypt-works-on-message-copy', PGP, "        if message.is_encrypted:  # pragma: no cover\n            _m = message\n", "        if message.is_encrypted:  # pragma: no cover\n            _m = copy.copy(message)\n", 'C20.8')
+STREAM = ("        if self is CompressionAlgorithm.ZLIB:\n            return zlib.compress(data)\n\n        if self is CompressionAlgorithm.BZ2:\n            return bz2.compress(data)\n")
+M('C20', 'zlib-streamed-tail-from-end', CO, STREAM, "        if self is CompressionAlgorithm.ZLIB:\n            comp = zlib.compressobj()\n            out = bytearray()\n            for i in range(len(data) // 65536):\n                out += comp.compress(data[i * 65536:(i + 1) * 65536])\n            out += comp.compress(data[-(len(data) % 65536):])\n            out += comp.flush()\n            return bytes(out)\n\n        if self is CompressionAlgorithm.BZ2:\n            return bz2.compress(data)\n", 'C20.5')
+T('C20', 'twin-zlib-streamed-partition', CO, STREAM, "        if self is CompressionAlgorithm.ZLIB:\n            comp = zlib.compressobj()\n            out = bytearray()\n            nblocks = len(data) // 65536\n            for i in range(nblocks):\n                out += comp.compress(data[i * 65536:(i + 1) * 65536])\n            out += comp.compress(data[nblocks * 65536:])\n            out += comp.flush()\n            return bytes(out)\n\n        if self is CompressionAlgorithm.BZ2:\n            return bz2.compress(data)\n")
